@@ -136,7 +136,7 @@ def main():
             tech += "; shared mega-history workload under the same oracle"
         text += EXTRA.get(pid, "")
         text += EXTRA2.get(pid, "")
-        text += " Before a sixth of the cases one to three predecessor connections run on the same thread and end badly (write error inside a reply, backend error inside a row, abandoned long data, ...): what they leave behind must not matter; during a sixth of the cases another connection is served on a second thread at a chosen read of the monitored one. " + ("The check runs the workload twice, on the overflow/debug-assertion checked build and on the release build, at two seeds (the build without the library's tls feature cannot serve this property)." if pid == "C18" else "The check runs the workload three times on three builds at three seeds: overflow/debug-assertion checked, release, and the library built without its tls cargo feature.")
+        text += " Before a sixth of the cases one to three predecessor connections run on the same thread and end badly (write error inside a reply, backend error inside a row, abandoned long data, ...): what they leave behind must not matter; during a sixth of the cases another connection is served on a second thread at a chosen read of the monitored one. The check runs the workload three times on three builds at three seeds: overflow/debug-assertion checked, release, and the library built without its tls cargo feature" + (" (that build decides one clause of this property only: a TLS request is refused before after_authentication)." if pid == "C18" else ".")
         checks.append({
             "property_id": pid,
             "quick_cmd": "./check %s quick" % pid,
